@@ -555,12 +555,14 @@ def restore_case(conc, di, fs, enc):
         be = rt.MemBackend({'config': U.config})
         rt.MiniLoop().run_until_complete(fresh_repo(U, 'A', be, concurrent=1).snapshot(paths=[src]))
         be.delays = delays
-        repo = fresh_repo(U, 'A', be, concurrent=conc)
+        repo = rt.guard_slots(fresh_repo(U, 'A', be, concurrent=conc))
         before = be.max_inflight = 0
         try:
             res = rt.MiniLoop().run_until_complete(repo.restore(path=d / 'out'))
         except Exception as e:
             return False, f'restore raised {e!r}'
+        if rt.THREAD_VIOLATIONS:
+            return False, rt.THREAD_VIOLATIONS[0] + ' (lost wake-ups: a loader can wait forever for a slot that is free)'
         got = {'/' + k: v[0] for k, v in world.tree_state(d / 'out').items()}
         if got != want:
             return False, 'restored tree differs under latencies ' + str(delays)
